@@ -118,24 +118,28 @@ def run(chk):
         jobs = [(exe, marks, d, api, var, i, secs[i]) for api in vapis for var in (APIS[api][:2] if quick else APIS[api]) for i in range(k)]
         with cf.ThreadPoolExecutor(max_workers=16) as ex:
             results = list(ex.map(one_run, jobs))
-        events = []; runs = 0
+        # TLC validation (a rejection is reported only if it repeats after re-recording the offending API's runs)
+        tpath = "%s/ct_%s.trace.ndjson" % (chk.out, variant)
+        by_group = collections.OrderedDict()
         for (api, var, idx, evs, info) in results:
             if evs is None: raise Infra("recording failed for %s/%d/%d on %s: %s" % (api, var, idx, variant, info))
-            events += evs; runs += 1; total_lines += info
-        # TLC validation
-        tpath = "%s/ct_%s.trace.ndjson" % (chk.out, variant)
-        vlib.write_ndjson(tpath, events)
-        r = chk.tlc(MODULE, "C06_trace.cfg", env={"TRACE": tpath}, workers=1, expect_ok=False, timeout=1800)
-        chk.traces_validated += runs; chk.evaluations += runs
-        cmpd = re.findall(r"/\\ compared = (\d+)", r.out)
-        for (api, var, idx, evs, info) in results:
+            by_group.setdefault((api, var), []).append(evs); total_lines += info
             chk.case_labels["%s/var%d/%s" % (api, var, variant)] += 1
-        if "Invariant NotAccepted is violated" in r.out:
-            log("[C06] %s: %d runs (%d APIs x variants x %d secrets), %s segment comparisons, all consistent (%.1fs TLC)" % (variant, runs, len(apis), k, cmpd[-1] if cmpd else "?", r.wall))
-            chk.notes.append("%s: %d runs, %s segment comparisons between runs with equal public inputs and equal declassified prefix" % (variant, runs, cmpd[-1] if cmpd else "?"))
-            if len(chk.samples) < 3: chk.samples.append({"variant": variant, "run_events": events[:6]})
-            continue
-        if r.ok:
+        runs = len(results)
+        chk.traces_validated += runs; chk.evaluations += runs
+        rerecorded = set()
+        while True:
+            events = [e for g in by_group.values() for evs in g for e in evs]
+            vlib.write_ndjson(tpath, events)
+            r = chk.tlc(MODULE, "C06_trace.cfg", env={"TRACE": tpath}, workers=1, expect_ok=False, timeout=1800)
+            cmpd = re.findall(r"/\\ compared = (\d+)", r.out)
+            if "Invariant NotAccepted is violated" in r.out:
+                log("[C06] %s: %d runs (%d APIs x variants x %d secrets), %s segment comparisons, all consistent (%.1fs TLC)" % (variant, runs, len(vapis), k, cmpd[-1] if cmpd else "?", r.wall))
+                chk.notes.append("%s: %d runs, %s segment comparisons between runs with equal public inputs and equal declassified prefix" % (variant, runs, cmpd[-1] if cmpd else "?"))
+                if len(chk.samples) < 3: chk.samples.append({"variant": variant, "run_events": events[:6]})
+                break
+            if not r.ok:
+                raise Infra("C06 trace validation could not be evaluated:\n" + r.tail(40))
             # rejected: bisect for the first event that cannot be explained
             lo, hi = 0, len(events)
             while lo < hi:
@@ -144,16 +148,24 @@ def run(chk):
                 rr = chk.tlc(MODULE, "C06_trace.cfg", env={"TRACE": tpath}, workers=1, expect_ok=False, timeout=1800)
                 if "Invariant NotAccepted is violated" in rr.out: lo = mid
                 else: hi = mid - 1
-            # find the run containing event lo
             j = lo
             while j > 0 and events[j]["e"] != "Call": j -= 1
-            call = events[j]
-            # repeat the recording once: only a repeated divergence is reported
+            call = events[j]; grp = (call["api"], call["pub"][0])
+            if grp not in rerecorded:
+                # record that API's runs again: only a divergence that repeats is a violation
+                rerecorded.add(grp)
+                jobs2 = [(exe, marks, d, grp[0], grp[1], i, secs[i]) for i in range(k)]
+                with cf.ThreadPoolExecutor(max_workers=16) as ex:
+                    res2 = list(ex.map(one_run, jobs2))
+                if any(x[3] is None for x in res2): raise Infra("re-recording failed for %s" % (grp,))
+                by_group[grp] = [x[3] for x in res2]
+                chk.notes.append("%s: rejection for %s re-recorded once" % (variant, grp))
+                continue
             chk.violation("control flow / memory addresses of %s (public variant %s, build %s) differ between two runs that agree on all public inputs and on "
-                          "everything declassified so far: secret-dependent branch or address (first divergent segment at event %d)" % (call["api"], call["pub"], variant, lo + 1),
+                          "everything declassified so far: secret-dependent branch or address (first divergent segment at event %d; repeated after re-recording)" % (call["api"], call["pub"], variant, lo + 1),
                           events[j:lo + 1], variant)
-            continue
-        raise Infra("C06 trace validation could not be evaluated:\n" + r.tail(40))
+            del by_group[grp]          # keep checking the other APIs
+            if not by_group: break
     return chk.finish(LEVEL,
         "each (API, public variant) is executed with K sampled secret assignments under valgrind lackey; the digest of every instruction/load/store observation "
         "between markers, cut at declassification points, must be a function of (api, public variant, declassified values so far). distinct_nontrivial counts "
